@@ -561,6 +561,32 @@ func runC11(e *Env) Outcome {
 			e.Fail("verdict-mismatch", fmt.Sprintf("kind=%s features=%s", kindName(arr), Features(feat)), fmt.Sprintf("validator accept=%v, reference accept=%v (%s)", got, want, why))
 		}
 	}
+	// a whole-array event whose DECLARED element count does not match the data
+	// it carries: the chunked form of the same declaration and bytes is
+	// rejected (declared != received), so the whole form must be as well
+	if a.Kind == rec.KArrayBegin && a.AT != events.ArrayTypeBit && len(a.Payload) > 0 {
+		whole := gen.WholeArray(a)
+		if whole[0].K == rec.KArray {
+			if t.Bool("count-fault-less") && whole[0].U > 1 {
+				whole[0].U--
+			} else {
+				whole[0].U += 1 + uint64(t.Intn("count-fault-more", 3))
+			}
+			got, _, p := c11DeliverEvents(e, pos, whole, cfg)
+			e.Seen(true, sig, "whole-wrong-count", whole[0].U)
+			e.Count("fault:declared-count-differs(whole-array event)", 1)
+			if p != nil {
+				e.Fail("panic-escaped", fmt.Sprintf("entry=RulesEventReceiver site=%s", p.Frame), p.Value)
+			} else if got {
+				feat := map[string]bool{"whole-array-event": true, "string-like": stringLike(a), "fault:declared-count-differs": true}
+				if !e.Failed() {
+					sc.Steps, sc.Fault = []string{whole[0].String()}, "declared-count-differs"
+					sc.Verdicts = "validator accept=true, reference accept=false (declared element count differs from the data carried)"
+				}
+				e.Fail("verdict-mismatch", fmt.Sprintf("kind=%s features=%s", kindName(a), Features(feat)), "validator accepted a whole-array event whose declared element count differs from its data")
+			}
+		}
+	}
 	return e.Finish(sig, sc, sc)
 }
 
